@@ -1,0 +1,9 @@
+//go:build verif
+
+// Machine-checked contracts for package png (comment-only; read by /verif/bin/vcgo).
+package png
+
+//@ func ScanPngHeader
+//@   props C01 C02
+//@   entry
+//@   requires r != nil
